@@ -175,10 +175,7 @@ static LOOPBACK_PORT: OnceLock<u16> = OnceLock::new();
 
 fn loopback_port() -> u16 {
     *LOOPBACK_PORT.get_or_init(|| {
-        let port = {
-            let l = std::net::TcpListener::bind("127.0.0.1:0").expect("bind");
-            l.local_addr().unwrap().port()
-        };
+        let port = crate::fixtures::free_port();
         let mut cfg = srv::config(&SrvOpts::default());
         cfg.tcp_config.port = port;
         cfg.tcp_config.hello_timeout = 3600;
